@@ -175,8 +175,15 @@ class FsMixin:
         st.assume(qforall([k, k2], z3.Implies(z3.And(0 <= k, k < k2, k2 < n), res[k] != res[k2]), patterns=[z3.MultiPattern(res[k], res[k2])]))
         st.assume(qforall([q], z3.Implies(z3.And(z3.Select(kind, q) != ABSENT, glob_match(d, pat, q)),
                   z3.Contains(res, z3.Unit(Val.PathV(q)))), patterns=[glob_match(d, pat, q)]))
-        for ax in self.glob_axioms(d, a[0]):
+        gax = self.glob_axioms(d, a[0])
+        for ax in gax:
             st.assume(ax)
+        facts = self.seq_facts.setdefault(res.decl().name(), [])
+        facts.append(lambda j: z3.Implies(z3.And(0 <= j, j < n), z3.And(Val.is_PathV(res[j]), z3.Select(kind, Val.p(res[j])) != ABSENT,
+                                                                    glob_match(d, pat, Val.p(res[j])))))
+        for ax in gax:      # definition of glob_match for this pattern, at the element
+            if z3.is_quantifier(ax):
+                facts.append(lambda j, ax=ax: z3.Implies(z3.And(0 <= j, j < n), z3.substitute_vars(ax.body(), Val.p(res[j]))))
         for h in self.glob_hooks:
             h(self, st, res, d, a[0])
         return R(st, self.new_list(st, res, "list[Path]"))
